@@ -147,6 +147,8 @@ type LeafOpts struct {
 	CDP    []string
 	OCSP   []string
 	RSA    bool
+	KU     *x509.KeyUsage // default: digitalSignature; 0 = no keyUsage extension
+	NoSKI  bool           // no subjectKeyIdentifier extension (what x509.CreateCertificate produces for end entities by default)
 }
 
 func (ca *CA) IssueLeaf(o LeafOpts) *Leaf {
@@ -169,6 +171,12 @@ func (ca *CA) IssueLeaf(o LeafOpts) *Leaf {
 		CRLDistributionPoints: o.CDP,
 		OCSPServer:            o.OCSP,
 		SubjectKeyId:          ski(key.Public()),
+	}
+	if o.NoSKI {
+		tmpl.SubjectKeyId = nil
+	}
+	if o.KU != nil {
+		tmpl.KeyUsage = *o.KU
 	}
 	der, err := x509.CreateCertificate(rand.Reader, tmpl, ca.Cert, key.Public(), ca.Key)
 	if err != nil {
